@@ -200,10 +200,10 @@ PROPS = {
                 assumptions=["overlapping element matchers whose answer depends on the first-fit order are skipped (documented as 'may or may not match')",
                              "range_is_permutation with a single non-range element is not generated (does not compile: noted as a compile-time observation, see DESIGN.md 9)"]),
     "C20": dict(jobs=[rc_job("q_rc", "Q", (3, 8000, 70), (12, 40000, 100)), rc_job("q_rc_gcc", "Q", (0, 0, 0), (4, 20000, 100), name="Q(g++)"), py_job("compile/k_engine.py", "K", "K(replay only)", replay_only=True)],
-                rule="engine Q (C++20): 80 expectation sites over own task<T> / gen<Y,R> coroutine types (eager and lazy): 0-4 CO_YIELD / LR_CO_YIELD, CO_RETURN value / void / throwing, CO_THROW, SIDE_EFFECT, matchers, TIMES, "
+                rule="engine Q (C++20): 124 expectation sites over own task<T> / gen<Y,R> coroutine types (eager and lazy): 0-4 CO_YIELD / LR_CO_YIELD, CO_RETURN value / void / throwing, CO_THROW, SIDE_EFFECT, matchers, TIMES, "
                      "RT_TIMES, IN_SEQUENCE; a case = site + data + 1-3 calls (+ optional second sequenced expectation) + a generated interleaving of resume steps; oracle: matched / counted / sequence-checked / side effects at "
                      "call time, then exactly the yields in order, then return / completion / exception at the resume point, per coroutine object. non-trivial = >= 2 yields and >= 2 coroutine objects of one expectation resumed interleaved, or a throwing completion.",
-                assumptions=["clauses that can run after the call returned do not name _N (dangling by-value parameters are the caller's lifetime problem)",
+                assumptions=["clauses that can run after the call returned name _N only for reference parameters bound to caller-owned objects that outlive the coroutine (dangling by-value parameters are the caller's lifetime problem)",
                              "the expectation outlives the coroutine's evaluation of its clauses"]),
     "C09": dict(jobs=[py_job("params/p_engine.py", "P", "P(generated programs)")],
                 rule="engine P: Hypothesis generates translation units of 6-12 mock functions with arity 0..15 and an independently drawn passing mode per position (int, int&, int const&, int&&, int*, Tr by value/&/const&/&&, "
